@@ -219,6 +219,16 @@ def missing_facts(needs, dom, fn):
     """needs that do not dominate; local variables that no longer exist in the function may be consistently renamed to other
     local variables of the function (a pure rename of a local must not raise an alarm)"""
     import itertools
+    # variables of a helper that was inlined (engine/inline.py) carry the helper's name as a prefix when the caller has a variable of
+    # the same name: `decrypt_next_frame/frame_size` is the `frame_size` of the moved code
+    shorts = set()
+    for k in (fn.rec.get("inlined") or []):
+        if not k.startswith("combinator:"):
+            shorts.add(k.rsplit("::", 2)[-1] if "{closure" not in k else "::".join(k.rsplit("::", 2)[-2:]))
+    if shorts:
+        rx = re.compile(r"(?<![\w:])(?:%s)/(?=[A-Za-z_])" % "|".join(re.escape(x) for x in sorted(shorts)))
+        strip = lambda x: rx.sub("", str(x))
+        dom = set(dom) | {(strip(a), r, strip(b)) for a, r, b in dom if "/" in str(a) or "/" in str(b)}
     miss = [n for n in needs if not holds(n, dom)]
     if not miss:
         return []
